@@ -1305,6 +1305,36 @@ func familyStripping(r *common.Rand) {
 			}
 		}
 	}
+	// under the FORKID digest NOTHING is removed from the script code, not even the exact push of the signature being
+	// checked: a signature made over the code without its own push must be rejected — by OP_CHECKSIG and by
+	// OP_CHECKMULTISIG alike — and one made over the code as it stands (it cannot contain itself, so it is a
+	// different signature whose push sits in the code) is accepted
+	for mi, f := range []uint32{sp.FForkID, sp.FForkID | sp.FGenesis, sp.FForkID | sp.FGenesis | sp.FNullFail | sp.FStrictEnc | sp.FDERSig} {
+		for hi, ht := range []byte{0x41, 0xc3, 0x42} {
+			for multi := 0; multi < 2; multi++ {
+				for stripped := 0; stripped < 2; stripped++ {
+					b := newBuild(r, "strip/forkid-"+[]string{"checksig", "checkmultisig"}[multi]+[]string{"-copy-of-another-signature", "-signed-without-own-push"}[stripped], f, 1)
+					slot := b.addSig(sigReq{Signer: 0, HT: ht})
+					pk := b.keys[0].Enc((mi + hi) % 2)
+					copySlot := slot
+					if stripped == 0 {
+						copySlot = b.addSig(sigReq{Signer: -1, HT: ht, Bare: true}) // some other signature-shaped constant
+					}
+					if multi == 0 {
+						b.scripts[0] = []sp.Op{sp.SigSlot(slot, nil, nil, 0)}
+						b.scripts[1] = []sp.Op{sp.SigSlot(copySlot, nil, nil, 0), sp.O(0x75), sp.P(pk), sp.O(0xac)}
+						b.ops = []sigOp{{script: 1, at: 3, slots: []int{slot}, keys: [][]byte{pk}}}
+					} else {
+						b.scripts[0] = []sp.Op{sp.O(0x00), sp.SigSlot(slot, nil, nil, 0)}
+						b.scripts[1] = []sp.Op{sp.SigSlot(copySlot, nil, nil, 0), sp.O(0x75), sp.O(0x51), sp.P(pk), sp.O(0x51), sp.O(0xae)}
+						b.ops = []sigOp{{script: 1, at: 5, slots: []int{slot}, keys: [][]byte{pk}, multi: true, dummy: []byte{}}}
+					}
+					b.reqs[slot].StripAny = stripped == 1
+					b.run()
+				}
+			}
+		}
+	}
 	// 2-of-2 legacy multisig with copies of both signatures in the locking script
 	for mi, f := range []uint32{0, sp.FDERSig | sp.FNullFail | sp.FStrictMultiSig, sp.FGenesis} {
 		multisigCase(r, "strip/multisig-copies", f, 2, []int{0, 1}, msOpts{copies: true, sepAt: 1 + mi})
